@@ -6,6 +6,7 @@ use std::panic;
 
 mod oracle;
 mod c01;
+mod c02;
 mod c04;
 mod c05;
 mod c06;
@@ -81,6 +82,7 @@ fn main() {
         "C15" => c15::search(&mut rng, budget, &mut fails),
         "C10" => c10::search(&mut rng, budget, &mut fails),
         "C04" | "C03" => c04::search(&mut rng, budget, &mut fails),
+        "C02" => c02::search(&mut rng, budget, &mut fails),
         _ => {
             eprintln!("no replay search for {prop}");
             std::process::exit(2);
